@@ -53,7 +53,11 @@ RULE = ("25% real thread-mode DPOP runs (3-6 variables, domains 2-3, random conn
         "thread-free runs (C01's dcops: 1-7 variables, n-ary matrix constraints, forests, variable "
         "costs, 10% tables with the infinity constant; seeded netdriver schedules, 15% truncated; "
         "1-4 real OrchestratedAgents, real orchestrator queue drained never/sometimes/always "
-        "between steps); non-trivial = at least 3 value/end events; distinct = distinct case JSON")
+        "between steps); real and composed cases declare initial values for half of the problems; 40% of "
+        "real cases start agents outside the distribution only after the stop order, 25% solve twice with "
+        "the same Distribution/graph/DCOP objects, 20% are star-like problems with a hub distribution and "
+        "late discovery notifications (several messages pending for one unknown recipient); "
+        "non-trivial = at least 3 value/end events; distinct = distinct case JSON")
 MODELLED = ("AgentsMgt bookkeeping (registration, deploy, run, value collection, end-of-computation "
             "detection, stop, global_metrics with solution_cost) is modelled; theorems: stop is sent "
             "exactly when the last graph computation reports its end, the reported assignment is the "
@@ -98,12 +102,47 @@ DISTS = ["oneagent", "adhoc", "gh_cgdp", "random"]
 
 
 # ------------------------------------------------------------------ generation
+def _gen_initial(rng, doms):
+    """declared initial values (Variable(..., initial_value=...)): DPOP must report its value
+    whether or not it equals the initial one"""
+    if rng.random() < 0.5:
+        return None
+    return [rng.randrange(k) if rng.random() < 0.7 else None for k in doms]
+
+
+def _gen_hub(rng):
+    """star-like problem, the centre alone on one agent and its leaves together on another, the
+    discovery answers delivered late: several messages wait for the same unknown recipient"""
+    n = rng.randint(4, 6)
+    doms = [rng.randint(2, 3) for _ in range(n)]
+    scopes = [[0, i] if rng.random() < 0.5 else [i, 0] for i in range(1, n)]
+    if rng.random() < 0.3:
+        scopes.append([rng.randrange(n)])
+    rng.shuffle(scopes)
+    cons = []
+    for sc in scopes:
+        size = 1
+        for i in sc:
+            size *= doms[i]
+        cons.append(dict(scope=sc, table=[rng.randint(-3, 12) for _ in range(size)]))
+    spec = dict(doms=doms, cons=cons, objective=rng.choice(["min", "max"]))
+    return dict(kind="real", spec=spec, n_agents=rng.randint(2, 3), dist="hub", capacity=1000,
+                seed=rng.randrange(1 << 30), switch=rng.choice([1e-5, 1e-4, 1e-3]),
+                late_idle=False, late_pub=rng.choice([0.1, 0.3]), initial=_gen_initial(rng, doms),
+                twice=False)
+
+
 def _gen_real(rng):
+    if rng.random() < 0.2:
+        return _gen_hub(rng)
     n = rng.randint(3, 6)
     spec = rt.gen_dcop_spec(rng, n)
     dist = rng.choice(DISTS)
     n_agents = n + rng.randint(0, 2) if dist == "oneagent" else rng.randint(2, n + 1)
     return dict(kind="real", spec=spec, n_agents=n_agents, dist=dist,
+                initial=_gen_initial(rng, spec["doms"]),
+                # a second solve with the same Distribution / graph / DCOP objects in the same process
+                twice=rng.random() < 0.25,
                 capacity=rng.choice([2, 3, 1000]) if dist in ("adhoc", "gh_cgdp") else 1000,
                 seed=rng.randrange(1 << 30),
                 switch=rng.choice([1e-6, 1e-5, 1e-4, 1e-3, 5e-3]),
@@ -182,6 +221,7 @@ def _gen_composed(rng):
     computations hosted by real (unstarted) OrchestratedAgents, a real Orchestrator's queue"""
     from harness.props import C01 as c01
     dp = c01.gen(rng, 1, "quick")[0]
+    dp.pop("prelude", None)                   # one solve per composed case
     n = len(dp["doms"])
     dp["offs"] = [0] * n                      # value = domain index (M_Orch's values are indices)
     for cc in dp["cons"]:                     # keep the generated tables, as matrix constraints
@@ -194,7 +234,7 @@ def _gen_composed(rng):
             t[rng.randrange(len(t))] = rt.INFINITY
     n_agents = rng.randint(1, 4)
     host = [rng.randrange(n_agents) for _ in range(n)]
-    return dict(kind="composed", dpop=dp, n_agents=n_agents, host=host,
+    return dict(kind="composed", dpop=dp, n_agents=n_agents, host=host, initial=_gen_initial(rng, dp["doms"]),
                 drain=rng.choice([0.0, 0.3, 1.0]), seed=rng.randrange(1 << 30))
 
 
@@ -227,22 +267,163 @@ def _final(orch):
                 comp_status=[[k, v] for k, v in orch.mgt._computation_status.items()])
 
 
+class _initial_values(object):
+    """while active every Variable named in `init` is built as Variable(..., initial_value=init[name])
+    (the shared dcop builders take no initial values)"""
+
+    def __init__(self, init):
+        self.init = init
+
+    def __enter__(self):
+        from pydcop.dcop import objects
+        self.orig = orig = objects.Variable.__init__
+        init = self.init
+
+        def __init__(slf, name, domain, initial_value=None):
+            orig(slf, name, domain, init.get(name, initial_value))
+        objects.Variable.__init__ = __init__
+
+    def __exit__(self, *a):
+        from pydcop.dcop import objects
+        objects.Variable.__init__ = self.orig
+
+
+def _hub_distribution(cg, dcop):
+    """a node with two leaf children alone on the first agent, everything else on the second: the
+    second agent sends several messages to the same remote computation"""
+    from importlib import import_module
+    from pydcop.distribution.objects import Distribution
+    gm = import_module("pydcop.computations_graph.pseudotree")
+    rel = {n.name: gm.get_dfs_relations(n) for n in cg.nodes}
+    hub = None
+    for name, (p, pps, ch, pcs) in rel.items():
+        if sum(1 for c in ch if not rel[c][2]) >= 2:
+            hub = name
+            break
+    if hub is None:
+        hub = [n for n, r in rel.items() if r[0] is None][0]
+    agents = sorted(dcop.agents)
+    mapping = {a: [] for a in agents}
+    mapping[agents[0]] = [hub]
+    mapping[agents[1]] = [n.name for n in cg.nodes if n.name != hub]
+    return Distribution(mapping)
+
+
+def _hold_publications(delay):
+    """another delivery schedule of the discovery traffic: the directory's publish_computation
+    notifications reach an agent only `delay` seconds after its run order, so the agent's
+    computations post their first messages before the agent knows where the recipients are
+    (Messaging's retry path)"""
+    import threading
+    from pydcop.infrastructure.communication import InProcessCommunicationLayer as L
+    orig = L.receive_msg
+    lock = threading.Lock()
+    held, released = {}, set()
+
+    def release(agent):
+        with lock:
+            released.add(agent)
+            msgs = held.pop(agent, [])
+        for slf, a, b, m in msgs:
+            orig(slf, a, b, m)
+
+    def receive_msg(self, src_agent, dest_agent, msg):
+        m_type = getattr(msg[2], "type", None)
+        if dest_agent != "orchestrator":
+            if m_type == "publish_computation":
+                with lock:
+                    if dest_agent not in released:
+                        held.setdefault(dest_agent, []).append((self, src_agent, dest_agent, msg))
+                        return
+            elif m_type == "run_computations":
+                t = threading.Timer(delay, release, [dest_agent])
+                t.daemon = True
+                t.start()
+        return orig(self, src_agent, dest_agent, msg)
+    L.receive_msg = receive_msg
+
+
+_AGENTS = []
+
+
+def _track_agents():
+    from pydcop.infrastructure import orchestratedagents as oa
+    if getattr(oa.OrchestratedAgent, "_c22_tracked", False):
+        return
+    orig = oa.OrchestratedAgent.__init__
+
+    def __init__(self, *a, **k):
+        orig(self, *a, **k)
+        _AGENTS.append(self)
+    oa.OrchestratedAgent.__init__ = __init__
+    oa.OrchestratedAgent._c22_tracked = True
+
+
+def _solve_once(case, algo, cg, dist, dcop, saved):
+    """one orchestrated thread-mode solve, as pydcop.infrastructure.run.solve does it"""
+    from pydcop.infrastructure import orchestrator as om
+    from pydcop.infrastructure.run import run_local_thread_dcop
+    M = om.AgentsMgt
+    M.on_message, M._send_mgt_msg, M._cb_agent_registration, M._cb_computation_registration = saved
+    tr = rt.MgtTrace().install()
+    _track_agents()
+    # snapshot first: Distribution.computations_hosted() on a defaultdict mapping (oneagent)
+    # inserts the agents it is asked about, so dist.agents grows during the run
+    static = _static(dcop, cg, dist, None)
+    t0 = time.time()
+    orch = run_local_thread_dcop(algo, cg, dist, dcop, rt.INFINITY)
+    res = {}
+    try:
+        orch.deploy_computations()
+        # Orchestrator.run() first waits for ready_to_run without any limit (the timeout timer
+        # is armed after it): look before, so that a run that can never start is reported
+        if orch.mgt.ready_to_run.wait(RUN_TIMEOUT / 2):
+            orch.run(timeout=RUN_TIMEOUT)
+            res["status"] = orch.status          # what commands/solve.py reads right after run()
+        else:
+            res["status"] = "NOT_READY"
+        res["elapsed"] = time.time() - t0
+        res.update(_final(orch))
+        res["static"] = static
+    finally:
+        if orch._timeout_timer is not None:
+            orch._timeout_timer.cancel()
+        orch.stop_agents(5)
+        orch.stop()
+    res["trace"] = tr.entries
+    res["foreign"] = tr.foreign
+    res["dist_after"] = [[a, list(cs)] for a, cs in dist.mapping().items() if cs]
+    if res.get("status") != "OK":       # diagnostics only: messages still waiting for their recipient
+        res["stranded"] = [[a.name, f[0], f[1], getattr(f[2], "type", "?")]
+                           for a in _AGENTS for f in list(a._messaging._failed)][:20]
+    del _AGENTS[:]
+    return res
+
+
 def _real(case):
     import sys
     sys.setswitchinterval(case["switch"])
     from pydcop.distribution.objects import ImpossibleDistributionException
-    from pydcop.infrastructure.run import run_local_thread_dcop
-    dcop = rt.build_dcop(case["spec"], case["n_agents"], capacity=case["capacity"])
+    from pydcop.infrastructure import orchestrator as om
+
+    def build(capacity):
+        init = {rt.vname(i): v0 for i, v0 in enumerate(case.get("initial") or []) if v0 is not None}
+        with _initial_values(init):
+            dcop = rt.build_dcop(case["spec"], case["n_agents"], capacity=capacity)
+        algo, cg, dist = rt.build_runtime(dcop, "dpop", "random" if case["dist"] == "hub" else case["dist"],
+                                          rng_seed=case["seed"])
+        if case["dist"] == "hub":
+            dist = _hub_distribution(cg, dcop)
+        return dcop, algo, cg, dist
     try:
-        algo, cg, dist = rt.build_runtime(dcop, "dpop", case["dist"], rng_seed=case["seed"])
+        dcop, algo, cg, dist = build(case["capacity"])
     except ImpossibleDistributionException:
         # the heuristic found no placement within the small capacity (C23's subject): the
         # property is about valid distributions, so retry with ample capacity
-        dcop = rt.build_dcop(case["spec"], case["n_agents"], capacity=1000)
-        algo, cg, dist = rt.build_runtime(dcop, "dpop", case["dist"], rng_seed=case["seed"])
+        dcop, algo, cg, dist = build(1000)
     if case.get("late_idle"):
         import threading
-        from pydcop.infrastructure import orchestratedagents as oa, orchestrator as om
+        from pydcop.infrastructure import orchestratedagents as oa
         # only agents the orchestrator does not wait for before deploying (not in the mapping)
         busy = set(dist.mapping().keys())
         gate = threading.Event()
@@ -260,27 +441,21 @@ def _real(case):
             finally:
                 gate.set()
         oa.OrchestratedAgent.start, om.AgentsMgt._orchestrator_stop_agents = start, stop_agents
-    tr = rt.MgtTrace().install()
-    # snapshot first: Distribution.computations_hosted() on a defaultdict mapping (oneagent)
-    # inserts the agents it is asked about, so dist.agents grows during the run
-    static = _static(dcop, cg, dist, None)
-    t0 = time.time()
-    orch = run_local_thread_dcop(algo, cg, dist, dcop, rt.INFINITY)
-    res = {}
-    try:
-        orch.deploy_computations()
-        orch.run(timeout=RUN_TIMEOUT)
-        res["status"] = orch.status          # what commands/solve.py reads right after run()
-        res["elapsed"] = time.time() - t0
-        res.update(_final(orch))
-        res["static"] = static
-    finally:
-        if orch._timeout_timer is not None:
-            orch._timeout_timer.cancel()
-        orch.stop_agents(5)
-        orch.stop()
-    res["trace"] = tr.entries
-    res["foreign"] = tr.foreign
+    if case.get("late_pub"):
+        _hold_publications(case["late_pub"])
+    M = om.AgentsMgt
+    saved = (M.on_message, M._send_mgt_msg, M._cb_agent_registration, M._cb_computation_registration)
+    dist0 = [[a, list(cs)] for a, cs in dist.mapping().items() if cs]
+    res = _solve_once(case, algo, cg, dist, dcop, saved)
+    res["dist0"] = dist0
+    if case.get("twice"):
+        # the same DCOP / graph / Distribution objects solved again in the same process
+        first = {k: res[k] for k in ("status", "elapsed", "assignment", "cost", "violation", "dist_after")}
+        if case.get("late_idle"):
+            gate.clear()
+        res = _solve_once(case, algo, cg, dist, dcop, saved)
+        res["first"] = first
+        res["dist0"] = dist0
     return res
 
 
@@ -371,7 +546,9 @@ def _composed(case):
     rng = random.Random(case["seed"])
     random.seed(case["seed"])
     numpy.random.seed(case["seed"] % (2 ** 32))
-    dcop, vs = c01.build_dcop(c)
+    init = {c01._v(i): v0 for i, v0 in enumerate(case.get("initial") or []) if v0 is not None}
+    with _initial_values(init):
+        dcop, vs = c01.build_dcop(c)
     mod = load_algorithm_module("dpop")
     gm = import_module("pydcop.computations_graph." + mod.GRAPH_TYPE)
     cg = gm.build_computation_graph(dcop)
@@ -425,9 +602,10 @@ def _composed(case):
         vars_, vals = msg.content
         return ["value", [v.name for v in vars_], [idx(v.name, w) for v, w in zip(vars_, vals)]]
 
-    drv = NetDriver.__new__(NetDriver)
-    drv.comps, drv.names, drv.chans = dict(comps), sorted(comps), {}
-    drv.started, drv.paused, drv.events, drv.schedule, drv._reinj, drv.t = set(), set(), [], [], None, 0
+    # the computations already have their message_sender (Agent.add_computation; it can be set only
+    # once): build the driver empty, then hand it the computations
+    drv = NetDriver({})
+    drv.comps, drv.names = dict(comps), sorted(comps)
     orig = drv._sender
 
     def sender(src, dst, msg, prio=None, on_error=None):
@@ -490,7 +668,8 @@ def _composed(case):
         if d_ in comps:
             inflight.append([s_, d_, [msgobs(m_) for m_ in ql]])
     res = dict(status=orch.status, elapsed=0.0, trace=tr.entries, foreign=tr.foreign, posted=posted,
-               dp=dict(tree=tree, cons_dims=cons_dims, log=log, sched=drv.schedule, final=final,
+               dp=dict(tree=tree, cons_dims=cons_dims, log=log,
+                       sched=getattr(drv, "model_schedule", drv.schedule), final=final,
                        joined=joined, inflight=inflight, complete=complete),
                failed=len(queue._failed) if hasattr(queue, "_failed") else 0)
     res.update(_final(orch))
@@ -511,7 +690,7 @@ def run_impl(case):
         finally:
             M.on_message, M._send_mgt_msg, M._cb_agent_registration, M._cb_computation_registration = saved
     if case["kind"] == "real":
-        return rt.run_isolated(_real, case, hard_timeout=RUN_TIMEOUT + 60)
+        return rt.run_isolated(_real, case, hard_timeout=(2 if case.get("twice") else 1) * RUN_TIMEOUT + 60)
     # crafted cases are thread-free; still isolated from each other by being cheap and stateless
     from pydcop.infrastructure import orchestrator as om
     M = om.AgentsMgt
@@ -661,8 +840,36 @@ def oracle(case, o):
                 ev, sorted(nodes - ended))
         ordered = ordered or expect
     if case["kind"] == "real":
+        # the caller's Distribution object is an input of the solve, not its scratch space
+        hosted0 = sorted([a, sorted(cs)] for a, cs in o.get("dist0", []))
+        for which, r in (("first", o.get("first")), ("last", o)):
+            if r is not None and "dist0" in o and \
+                    sorted([a, sorted(cs)] for a, cs in r["dist_after"]) != hosted0:
+                return "the %s solve modified the caller's Distribution: now %r, was %r" % (
+                    which, r["dist_after"], o["dist0"])
+        if o["status"] == "NOT_READY":
+            return ("the computations were never deployed (ready_to_run not set after %ds); distribution "
+                    "handed to the orchestrator: %r" % (RUN_TIMEOUT // 2, o["static"]["dist"]))
+        f = o.get("first")
+        if f is not None:       # the first of two solves with the same objects: same property
+            if f["status"] != "OK":
+                return "first solve ended with status %s" % f["status"]
+            fa = dict(f["assignment"])
+            if sorted(fa) != sorted(names):
+                return "first solve: assignment %r does not cover exactly %r" % (sorted(fa), names)
+            fv = [fa[nme] for nme in names]
+            if any(not (0 <= fv[i] < spec["doms"][i]) for i in range(len(names))):
+                return "first solve: value outside its domain in %r" % fa
+            if rt.total_cost(spec, fv) != rt.brute_optimum(spec):
+                return "first solve: assignment costs %d, optimum is %d" % (
+                    rt.total_cost(spec, fv), rt.brute_optimum(spec))
+            if (f["violation"], f["cost"]) != tuple(rt.accounting(spec, fv)):
+                return "first solve: reported (violation, cost) = (%r, %r), accounting gives %r" % (
+                    f["violation"], f["cost"], rt.accounting(spec, fv))
         if o["status"] != "OK":
-            return "run ended with status %s (not by end of all computations)" % o["status"]
+            return "run ended with status %s (not by end of all computations)%s" % (
+                o["status"], "; messages still waiting for an unknown recipient: %r" % o["stranded"]
+                if o.get("stranded") else "")
         if o["elapsed"] >= RUN_TIMEOUT:
             return "run lasted %.1fs >= timeout" % o["elapsed"]
         if any(ev["t"] in ("stopreq", "other") for ev, _ in evs):
